@@ -1033,6 +1033,11 @@ func c09FieldOwnCondition(c *eng.Ctx, r *eng.Report) {
 					if target != nil && !reachable(other, target) {
 						continue
 					}
+					// the exit test of a loop that stands before the store (`for _, x := range h.F { … }`) is not a
+					// guard either: the other outcome is the loop body, which comes back to the same test
+					if reachable(other, cd.If.Block()) {
+						continue
+					}
 					for f := range srcFieldsOf(param, cd.V) {
 						if !own[f] {
 							bad = fmt.Sprintf("%s (from %s) is written under a condition on %s.%s", pbField, eng.Desc(v), param, f)
